@@ -63,7 +63,8 @@ def run(idx: Index, rep: Report, tier: str):
     an = Analyzer(idx, max_depth=4 if tier == "quick" else 8)
     check_ownership(idx, rep, an, tier)
     check_readonly(idx, rep, an, tier)
-    check_gate_init(idx, rep)
+    semantic_ok = check_gate_init_table(idx, rep)
+    check_gate_init(idx, rep, semantic_ok)
     check_arity_cover(idx, rep, tier)
     check_add_gate(idx, rep)
     check_ctor_summaries(idx, rep)
@@ -335,8 +336,83 @@ def _names_in(e) -> Set[str]:
     return {n.id for n in ast.walk(e) if isinstance(n, ast.Name)}
 
 
-def check_gate_init(idx: Index, rep: Report):
+def check_gate_init_table(idx: Index, rep: Report) -> bool:
+    """Gate.__init__ folded over a table of index patterns: every malformed pattern must raise, every well-formed one must store
+    normalised (new) lists.  The table spans the classes the validation can distinguish: negative / non-integer / boolean-free ints,
+    duplicates within targets, within controls and across, wrong target arity for one- and two-target names, control on a gate whose
+    name does not start with C, scalar vs list arguments."""
+    rule = "K6.gate-validation-table"
+    from ..consteval import Folder, Raised, Rec, Undecidable
+    from .C09 import gate_sets
+    sets = gate_sets(idx)
+    f = idx.function(f"{GATE}::Gate.__init__")
+
+    def build(name, target, control=None, parameter=""):
+        me = Rec("Gate", {})
+        env = dict(sets)
+        env["ndarray"] = None
+        fo = Folder(env=env)
+        fo.env.pop("ndarray")
+
+        def ih(v, t):
+            if "ndarray" in t:
+                return False
+            if t == "str":
+                return isinstance(v, str)
+            return None
+        fo.isinstance_hook = ih
+        fo.run_function(f.node, {"self": me, "name": name, "target": target, "control": control, "parameter": parameter, "is_variational": False})
+        return me
+    bad = [
+        ("negative target", ("X", -1)), ("non-integer target", ("X", 1.0)), ("string target", ("X", "0")),
+        ("negative control", ("CX", 0, -2)), ("non-integer control", ("CX", 0, 1.5)),
+        ("target equals control", ("CX", 1, 1)), ("repeated target", ("SWAP", [1, 1])), ("repeated target of a controlled gate", ("CSWAP", [2, 2], 0)),
+        ("repeated control", ("CX", 2, [0, 1, 0])), ("control repeated twice only", ("CNOT", 0, [1, 1])),
+        ("target also among several controls", ("CZ", 1, [0, 1])),
+        ("two targets for a one-target gate", ("H", [0, 1])), ("two targets for a controlled one-target gate", ("CRZ", [0, 1], 2, 0.1)),
+        ("one target for a two-target gate", ("SWAP", [0])), ("three targets for a two-target gate", ("XX", [0, 1, 2], None, 0.3)),
+        ("control on a gate not starting with C", ("X", 0, 1)), ("control on a rotation", ("RZ", 0, [1], 0.2)),
+        ("non-string name", (7, 0)),
+    ]
+    all_ok = True
+    for label, args in bad:
+        try:
+            g = build(*args)
+            rep.violation(rule, f, f.node, text=f"rejected: {label} {args}", what="a gate with malformed qubit indices / arity / control is rejected",
+                          reason=f"Gate{args} is accepted (state {g.fields})")
+            all_ok = False
+        except Raised:
+            rep.ok(rule, f, f.node, text=f"rejected: {label} {args}", what="a gate with malformed qubit indices / arity / control is rejected")
+        except Undecidable as e:
+            raise AnalysisError(f"Gate.__init__ not foldable for {args}: {e}")
+    good = [
+        (("x", 3), {"name": "X", "target": [3], "control": None}),
+        (("CNOT", 1, 0), {"name": "CNOT", "target": [1], "control": [0]}),
+        (("cx", [2], [0, 1]), {"name": "CX", "target": [2], "control": [0, 1]}),
+        (("SWAP", (0, 5)), {"name": "SWAP", "target": [0, 5], "control": None}),
+        (("CSWAP", [1, 2], 0), {"name": "CSWAP", "target": [1, 2], "control": [0]}),
+        (("RZ", 0, None, 0.5), {"name": "RZ", "target": [0], "control": None, "parameter": 0.5}),
+        (("MYGATE", [0, 1, 2]), {"name": "MYGATE", "target": [0, 1, 2], "control": None}),
+    ]
+    for args, want in good:
+        try:
+            g = build(*args)
+            ok = all(g.fields.get(k) == v for k, v in want.items())
+            if not ok:
+                all_ok = False
+            rep.decide(ok, rule, f, f.node, text=f"accepted: Gate{args} -> {want}", what="a well-formed gate is stored with upper-case name and indices normalised to lists",
+                       reason=f"stored state {g.fields}")
+        except Raised as r:
+            all_ok = False
+            rep.violation(rule, f, r.node, text=f"accepted: Gate{args}", what="a well-formed gate is accepted", reason=f"raises {r.exc_type}")
+        except Undecidable as e:
+            raise AnalysisError(f"Gate.__init__ not foldable for {args}: {e}")
+    return all_ok
+
+
+def check_gate_init(idx: Index, rep: Report, semantic_ok: bool = False):
     rule = "K6.gate-validation"
+    _SEMANTIC_OK[0] = semantic_ok
     f = idx.function(f"{GATE}::Gate.__init__")
     cfg = CFG(f.node)
     store = _find_state_store(f)
@@ -407,10 +483,16 @@ def _is_not_none_test(t, name) -> bool:
         isinstance(t.ops[0], ast.IsNot) and isinstance(t.comparators[0], ast.Constant) and t.comparators[0].value is None
 
 
+_SEMANTIC_OK = [False]
+
+
 def _guard_obligation(rep, cfg, f, store_id, rule, label, pred, what, need_control_guard=False):
     cands = [n for n in own_nodes(f.node) if isinstance(n, ast.If) and pred(n.test) and _raises_unconditionally(n.body)]
     if not cands:
-        rep.violation(rule, f, f.node, text=label, what=what, reason=f"no raising guard of kind '{label}' found before the state store")
+        if _SEMANTIC_OK[0]:
+            rep.info(rule, f, f.node, text=label, reason=f"guard of kind '{label}' not in a recognised form; the folded validation table holds, so this is a rewrite")
+        else:
+            rep.violation(rule, f, f.node, text=label, what=what, reason=f"no raising guard of kind '{label}' found before the state store")
         return
     g = cands[0]
     gid = cfg.node_for(g)
